@@ -4,6 +4,7 @@ package main
 // account.AccountDB. Nothing in this file judges anything.
 
 import (
+	"encoding/binary"
 	"errors"
 	"fmt"
 	"math/big"
@@ -13,6 +14,7 @@ import (
 	"com.tuntun.rangers/node/src/middleware/db"
 	"com.tuntun.rangers/node/src/middleware/types"
 	"com.tuntun.rangers/node/src/storage/account"
+	"golang.org/x/crypto/sha3"
 )
 
 // Op is one step of a history. Every field is an index into the closed
@@ -126,16 +128,27 @@ func setupUniverse(bound bool) {
 	for _, n := range ftNames {
 		ftKeys = append(ftKeys, []byte(common.GenerateFTKey(n)))
 	}
-	var nilDB *account.AccountDB // GetERC20Key does not touch its receiver
 	for i := 0; i < nUniverse; i++ {
-		slotRPG[i] = nilDB.GetERC20Key(uAddr[i], 3)
-		slotTokB[i] = nilDB.GetERC20Key(uAddr[i], 1)
+		slotRPG[i] = erc20Slot(uAddr[i], 3)
+		slotTokB[i] = erc20Slot(uAddr[i], 1)
 	}
 	for i := range txHashes {
 		txHashes[i] = common.BytesToHash([]byte{0x7a, byte(i + 1)})
 		alSlots[i] = common.BytesToHash([]byte{0x51, byte(i)})
 		tKeys[i] = common.BytesToHash([]byte{0x7e, byte(i)})
 	}
+}
+
+// erc20Slot is the harness' own derivation of the Solidity mapping slot keccak256(pad32(addr) ++ pad32(position))
+// that AccountDB.GetERC20Key computes. It is derived here (fresh array per call, no go-rangers code) so that the
+// universe does not depend on how the code under test manages its key buffers; sanity() checks that the two agree.
+func erc20Slot(a common.Address, position uint64) []byte {
+	var data [64]byte
+	copy(data[12:], a.Bytes())
+	binary.BigEndian.PutUint64(data[56:], position)
+	h := sha3.NewLegacyKeccak256()
+	h.Write(data[:])
+	return h.Sum(nil)
 }
 
 // ---------------------------------------------------------------------------
